@@ -307,6 +307,8 @@ class Real(object):
             first = statuses.DELAYED
         elif plain_fresh and self.use_delayed == "all":
             first = statuses.REQUESTED        # the provider acknowledges the request before the action runs
+        elif plain_fresh and self.use_delayed == "pending" and "p" in self.d["fates"].get(task, []):
+            first = statuses.PENDING          # an inquiry: the action waits for a response from its very first report
         rec = self.c.get_task_state_entry(task, route)
         fresh = rec is None or rec.get("status") in statuses.COMPLETED_STATUSES + ["retrying", None]
         if fresh:
